@@ -17,6 +17,7 @@ used, so no feasible path is removed.
 """
 from __future__ import annotations
 
+from .core import acopy
 import ast
 import copy
 from typing import Any, Dict, List, Optional, Tuple
@@ -186,7 +187,7 @@ def simplify_events(events: List[tuple]) -> Optional[List[tuple]]:
                     # no other reader between definition and here except decided conditions on the temp itself
                     other = [e for e in between if v.id in _names_of_event(e) and not (e[0] == "cond" and _decide(e[1], {v.id: env[v.id]}) is not None)]
                     if not other:
-                        pairs = [(te.id, copy.deepcopy(ve)) for te, ve in zip(t.elts, tup.elts)]
+                        pairs = [(te.id, acopy(ve)) for te, ve in zip(t.elts, tup.elts)]
                         pairs = [(n, e) for n, e in pairs if not (isinstance(e, ast.Name) and e.id == n)]
                         indep = all(n not in names_in(e2) for i, (n, _) in enumerate(pairs) for j, (_, e2) in enumerate(pairs) if j > i)
                         # also an earlier-written target must not be read by a later component (checked above); components reading their own target are fine
@@ -199,7 +200,7 @@ def simplify_events(events: List[tuple]) -> Optional[List[tuple]]:
                                 _adopt(a, s)
                                 new_events.append(("stmt", a))
                         else:
-                            a = ast.Assign(targets=[copy.deepcopy(t)], value=copy.deepcopy(tup), lineno=s.lineno)
+                            a = ast.Assign(targets=[acopy(t)], value=acopy(tup), lineno=s.lineno)
                             ast.copy_location(a, s)
                             ast.fix_missing_locations(a)
                             _adopt(a, s)
